@@ -712,3 +712,71 @@ def lck10_no_reentrant_acquisition(ctx, scope_prefixes=None):
                               'never gets an answer' % (cb.name.split('::')[-1], lid, lid), where(t))
     ctx.ok('LCK-10', 'scan', '%d bodies with self-locks analysed, %d nested self-call sites'
            % (len(acq), n_sites))
+
+
+# ------------------------------------------------------------------------------------ CND-2
+CND2_TABLE = [
+    # (condvar, paired mutex, mutation kind, description)
+    (WAL_CV, WAL, 'store', 'a store through the ingestion-lock guard (log size changed)'),
+    ('InnerLocustDB.pending_wal_flushes.1', 'InnerLocustDB.pending_wal_flushes.0', 'push',
+     'a flush request is queued'),
+    ('InnerLocustDB.idle_queue', 'InnerLocustDB.task_queue', 'push_back', 'a task is queued'),
+]
+
+
+def cnd2_every_wakeup_condition_notifies(ctx):
+    ctx.rule('CND-2', 'every state change a waiter sleeps on is followed by a notify on every path '
+                      '(a forgotten notify leaves ingestion / force_flush / a worker asleep for ever)',
+             floor=4)
+    P = ctx.P
+    lm = lockmodel(ctx)
+    waiters = set()
+    for b in P.fn_bodies():
+        for blk, t in b.calls():
+            if WAIT_RE.match(t.func or ''):
+                waiters.add(b.name)
+    for (cv, mtx, kind, desc) in CND2_TABLE:
+        n = 0
+        for b in P.fn_bodies():
+            if b.crate != 'locustdb':
+                continue
+            if not any(ACQUIRE_RE.match(t.func or '') and lm.lock_id(b, t.args[0]) == mtx for _bl, t in b.calls()):
+                continue
+            a = lm.analyse(b)
+            cfg = a['cfg']
+            du = lm.du(b)
+            muts = []
+            for bid in a['order']:
+                blk = b.blocks[bid]
+                if blk.cleanup:
+                    continue
+                if kind == 'store':
+                    for idx, s in enumerate(blk.stmts):
+                        if s.kind == 'assign' and re.match(r'^\(\*_\d+\)$', s.lhs.strip()):
+                            d = du.single_def(base_local(s.lhs))
+                            if d and d[1] == 'term' and GUARD_DEREF.match(d[2].func or '') and \
+                                    mtx in ids(lm.must_at(b, bid, idx)):
+                                # the store goes through the guard of this mutex?
+                                hl = base_local(d[2].args[0])
+                                muts.append((bid, s))
+                else:
+                    t = blk.term
+                    if t is not None and t.kind == 'call' and norm_callee(t.func).endswith('::' + kind) and \
+                            mtx in ids(lm.must_at(b, bid, None)):
+                        org = du.origins(base_local(t.args[0]))
+                        if any(GUARD_DEREF.match(c.func or '') for (_b2, c) in org['calls']):
+                            muts.append((bid, t))
+            if not muts:
+                continue
+            notifs = [blk.id for blk, t in b.calls() if not blk.cleanup and NOTIFY_RE.match(t.func or '')
+                      and lm.lock_id(b, t.args[0]) == cv]
+            rets = set(cfg.return_blocks())
+            for (mb, site) in muts:
+                if b.name in waiters and kind != 'store':
+                    continue
+                n += 1
+                okk = bool(notifs) and (mb in notifs or cfg.must_pass_after(mb, notifs, rets))
+                ctx.check('CND-2', '%s|%s' % (b.name, cv), okk,
+                          '%s in %s: every path to return passes a notify on %s'
+                          % (desc, b.name.split('::')[-1], cv), where(site))
+        ctx.require(n >= 1, 'CND-2: no mutation site found for %s' % cv)
